@@ -46,8 +46,10 @@ def empty_exclude_clause(chk):
     W = LC.W
     n = 0
     for api, nm in ((F, 'fnmatch'), (G, 'glob')):
-        for p in ('!a', 'a', '-a', '!*.txt', ['!a', 'b'], '*'):
-            for fl in (api.N, api.N | api.M, api.N | api.A, api.N | api.E):
+        # lists whose earlier member has a separator and whose later member has none: every pattern of a MATCHBASE call gets its own floating decision
+        lists = [['src/*.c', '*.h'], ['!src/*.c', '!*.h', '*'], ['/a', 'b'], ['a/b', 'c', 'd/e', 'f']] if api is G else []
+        for p in ['!a', 'a', '-a', '!*.txt', ['!a', 'b'], '*'] + lists:
+            for fl in (api.N, api.N | api.M, api.N | api.A, api.N | api.E) + ((api.N | api.X, api.X | api.D) if api is G else ()):
                 for ex in ([], '', (), ['b'], None, ['*.bak'], '*', ['.*', '?b'], ['**/*rc'] if api is G else ['[!a]*']):          # (wildcard exclusions: DOTMATCH is forced on both routes)
                     n += 1
                     chk.case(key=('empty-exclude', nm, str(p), fl, str(ex)))
